@@ -824,6 +824,12 @@ fn directed_variant(t: &mut Trace, var: Variant, eager: bool) {
         fwd_right(&mut s, t, &f);
         fwd_right(&mut s, t, &f);
     }
+    // a pre-existing allowance far above the authorized maximum never widens the fee bounds
+    s.approve(t, 8, 4, FWD, 1000, s.now + 60, &[4]);
+    for (fee, max) in [(11i128, 10i128), (999, 10), (1000, 999), (1, 0), (5, -1), (1000, 1000)] {
+        let f = Fwd { fee, max, ..base(&s) };
+        fwd_right(&mut s, t, &f);
+    }
     s.approve(t, 8, 4, FWD, 500, s.now + 3, &[4]);
     s.advance(t, 3);
     let f = Fwd { fee: 5, max: 10, ..base(&s) };
